@@ -245,7 +245,7 @@ impl C09 {
     let i = case.a[0] as usize;
     let s = case.a[1].clamp(0, 86399);
     let (y, _, _) = c.ymd(i);
-    let lo = (y - case.a[2].clamp(0, 120)).max(1);
+    let lo = (y - case.a[2].clamp(0, 200)).max(1);
     let hi = (lo + case.a[3].clamp(0, 120)).max(y).min(9998);
     let ts = ensure(y - 1, y + 1);
     out.eval("inverse");
@@ -352,7 +352,7 @@ fn inverse_strategy(hi_idx: i64) -> impl Strategy<Value = Case> {
     // January / early February dates (sexagenary year != civil year)
     3 => (1i64..=9998, 0i64..36).prop_map(|(y, k)| cal().year_start[y as usize] as i64 + k),
   ];
-  (idx, 0i64..86400, prop_oneof![2 => Just(0i64), 3 => 0i64..=60], prop_oneof![1 => Just(0i64), 4 => 0i64..=120]).prop_map(|(i, s, a, b)| Case::ints(&[i, s, a, b]))
+  (idx, 0i64..86400, prop_oneof![2 => Just(0i64), 3 => 0i64..=60, 2 => 60i64..=190], prop_oneof![1 => Just(0i64), 4 => 0i64..=120]).prop_map(|(i, s, a, b)| Case::ints(&[i, s, a, b]))
 }
 
 impl Prop for C09 {
